@@ -77,9 +77,59 @@ def receiver_kind(recv, f):
     return 'other'
 
 
-def wrapper_ok(call, recv, f):
-    """Is the call inside try ... except ErrorWithLocation as e: e.add_location(<recv>); raise [e] ?"""
+def _handler_adds_location(h, of_text):
+    """except <ErrorWithLocation-ish> as e: e.add_location(<of_text>); raise [e]"""
+    if not flow.handler_catches(h, ('ErrorWithLocation', 'Exception', 'Error', 'BaseException')) or not h.name:
+        return False
+    adds = [c for s in h.body for c in ast.walk(s) if isinstance(c, ast.Call) and isinstance(c.func, ast.Attribute)
+            and c.func.attr == 'add_location' and isinstance(c.func.value, ast.Name) and c.func.value.id == h.name]
+    reraise = any(isinstance(s, ast.Raise) and (s.exc is None or (isinstance(s.exc, ast.Name) and s.exc.id == h.name)) for s in h.body)
+    return reraise and any(c.args and ast.unparse(c.args[0]) == of_text for c in adds)
+
+
+def location_wrappers(model):
+    """Helpers that add an element to the location of an error raised while they call into it:
+      functions  g(.., p, ..)  whose body is  try: <call> except ErrorWithLocation as e: e.add_location(p); raise
+      context managers  class W: __init__(self, x) stores x; __exit__ calls <exc>.add_location(self.<x>) and does not swallow
+    -> ({function name: index of p among the positional parameters (after self)}, {class name})"""
+    funcs, ctxs = {}, set()
+    for m in model.modules.values():
+        if not m.rel.startswith('asn1tools/codecs/'):
+            continue
+        cands = list(m.functions.values()) + [f for c in m.classes.values() for f in c.methods.values()]
+        for g in cands:
+            params = [p for p in flow.param_names(g) if p not in ('self', 'cls')]
+            for t in [n for n in walk_no_nested(g) if isinstance(n, ast.Try)]:
+                for h in t.handlers:
+                    for i, p in enumerate(params):
+                        if _handler_adds_location(h, p):
+                            funcs[g.name] = i
+        for c in m.classes.values():
+            ex = c.methods.get('__exit__')
+            ini = c.methods.get('__init__')
+            if ex is None or ini is None:
+                continue
+            stored = {ast.unparse(a.targets[0]): ast.unparse(a.value) for a in walk_no_nested(ini) if isinstance(a, ast.Assign) and len(a.targets) == 1}
+            ip = [p for p in flow.param_names(ini) if p != 'self']
+            adds = [n for n in walk_no_nested(ex) if isinstance(n, ast.Call) and isinstance(n.func, ast.Attribute) and n.func.attr == 'add_location' and n.args]
+            swallows = any(isinstance(r, ast.Return) and isinstance(r.value, ast.Constant) and r.value.value is True for r in walk_no_nested(ex))
+            if ip and not swallows and any(stored.get(ast.unparse(a.args[0])) == ip[0] for a in adds):
+                ctxs.add(c.name)
+    return funcs, ctxs
+
+
+def wrapper_ok(call, recv, f, wrappers=({}, set())):
+    """Is the call inside try ... except ErrorWithLocation as e: e.add_location(<recv>); raise [e]  -- or inside
+    `with <LocationContext>(<recv>):` ?"""
     rsrc = ast.unparse(recv)
+    for a in flow.ancestors(call):
+        if a is f:
+            break
+        if isinstance(a, ast.With):
+            for it in a.items:
+                ce = it.context_expr
+                if isinstance(ce, ast.Call) and sem.callee_name(ce) in wrappers[1] and ce.args and ast.unparse(ce.args[0]) == rsrc:
+                    return True, 'inside with %s(%s)' % (sem.callee_name(ce), rsrc)
     for t in flow.enclosing_try_handlers(call, stop=f):
         for h in t.handlers:
             if not flow.handler_catches(h, ('ErrorWithLocation', 'Exception', 'Error', 'BaseException')):
@@ -126,14 +176,26 @@ def check(ctx):
 
     # ---- R1
     n_wrapped = 0
+    wrappers = location_wrappers(model)
+    ctx.extra['location_wrappers'] = {'functions': sorted(wrappers[0]), 'context_managers': sorted(wrappers[1])}
     for name in CODECS:
         rel = 'asn1tools/codecs/%s.py' % name
         m = model.mod(rel)
         for f in [n for n in ast.walk(m.tree) if isinstance(n, ast.FunctionDef)]:
             for call in [n for n in walk_no_nested(f) if isinstance(n, ast.Call)]:
                 fn = call.func
+                # a call of a location-adding helper with a named child: helper(<child>, ...) is the wrapped call itself
+                hn = sem.callee_name(call)
+                if hn in wrappers[0] and f.name != hn and len(call.args) > wrappers[0][hn]:
+                    child = call.args[wrappers[0][hn]]
+                    if receiver_kind(child, f) == 'named':
+                        n_wrapped += 1
+                        ctx.instance('C12.R1', '%s [%s(%s, ..)]' % (Model.qual(f), hn, ast.unparse(child)), 'wrapped', 'through the location-adding helper', node=call, file=rel)
+                    continue
                 if not (isinstance(fn, ast.Attribute) and fn.attr in METHODS):
                     continue
+                # <child>.encode passed as a bound method to the helper: call_with_location(member, member.encode, ..)
+                par = getattr(call, '_parent', None)
                 if cg.is_builtin_text_method(call):
                     continue
                 kind = receiver_kind(fn.value, f)
@@ -143,7 +205,7 @@ def check(ctx):
                     continue
                 if kind != 'named':
                     continue
-                ok, why = wrapper_ok(call, fn.value, f)
+                ok, why = wrapper_ok(call, fn.value, f, wrappers)
                 if ok:
                     n_wrapped += 1
                 ctx.instance('C12.R1', cons, 'wrapped' if ok else 'VIOLATION', why, node=call, file=rel)
@@ -152,8 +214,8 @@ def check(ctx):
                                   'named child call %s: %s -- an error raised below this component loses the component name from its path'
                                   % (ast.unparse(fn), why), stmt=norm_stmt(Model.enclosing_stmt(call)))
     ctx.extra['wrapped_named_child_sites'] = n_wrapped
-    if n_wrapped < 50 and not any(f.rule == 'C12.R1' for f in ctx.findings):
-        raise AnalysisError('C12.R1 found only %d wrapped named-child call sites (floor 50)' % n_wrapped)
+    if n_wrapped < 25 and not any(f.rule == 'C12.R1' for f in ctx.findings):
+        raise AnalysisError('C12.R1 found only %d wrapped named-child call sites (floor 25)' % n_wrapped)
 
     # ---- R5
     encs = siblings.members_encoders(model, CODECS)
@@ -200,8 +262,8 @@ def check(ctx):
 
     def path_then_message(f_):
         """some returned text places self.location_str before self.message (separated by ': '), or delegates to the base class"""
-        ps_ = sem.paths(f_) or []
-        for p_ in ps_:
+        ps_ = sem.paths(f_, resolver=sem.class_resolver(f_._cls)) if getattr(f_, '_cls', None) is not None else sem.paths(f_)
+        for p_ in ps_ or []:
             if p_.outcome[0] != 'return' or len(p_.outcome) < 4:
                 continue
             t_ = p_.outcome[1]
@@ -257,9 +319,36 @@ def check(ctx):
         if 'data' not in params and 'value' not in params:
             continue
         # a value obtained from a lookup in a self-rooted map is a validated, library-owned value
-        def cut(e):
-            return isinstance(e, ast.Subscript) and isinstance(e.value, ast.Attribute) and isinstance(e.value.value, ast.Name) \
-                and e.value.value.id == 'self' and not isinstance(e.slice, ast.Slice)
+        def self_map(x):
+            return isinstance(x, ast.Attribute) and isinstance(x.value, ast.Name) and x.value.id == 'self'
+
+        def cut(e, f=f):
+            if isinstance(e, ast.Subscript) and self_map(e.value) and not isinstance(e.slice, ast.Slice):
+                return True
+            # self.helper(self.<map>, data): a helper all of whose results are entries of a library-owned map
+            if isinstance(e, ast.Call) and isinstance(e.func, ast.Attribute) and isinstance(e.func.value, ast.Name) and e.func.value.id == 'self':
+                r = f._cls.find_method(e.func.attr)
+                if r is None:
+                    return False
+                g = r[1]
+                gp = [a.arg for a in g.args.args]
+                if gp and gp[0] in ('self', 'cls'):
+                    gp = gp[1:]
+                bound = {pn: a for pn, a in zip(gp, e.args)}
+                rets = [n.value for n in walk_no_nested(g) if isinstance(n, ast.Return)]
+                if not rets:
+                    return False
+                for rv in rets:
+                    if not (isinstance(rv, ast.Subscript) and not isinstance(rv.slice, ast.Slice)):
+                        return False
+                    b = rv.value
+                    if self_map(b):
+                        continue
+                    if isinstance(b, ast.Name) and b.id in bound and self_map(bound[b.id]):
+                        continue
+                    return False
+                return True
+            return False
         d, ed0 = flow.deps(f, sources={'data'} if 'data' in params else {'value'}, cut=cut)
 
         def ed(expr):
@@ -303,7 +392,7 @@ def check(ctx):
                               'lookup %s[%s] is keyed by the value being encoded and is neither guarded by a membership test nor inside '
                               'try/except KeyError -> EncodeError: an unknown name raises a bare KeyError (foreign exception, no path)'
                               % (mapsrc, keysrc), stmt='%s[%s]' % (mapsrc, keysrc))
-    if n3 < 15 and not any(f.rule == 'C12.R3' for f in ctx.findings):
+    if n3 < 8 and not any(f.rule == 'C12.R3' for f in ctx.findings):
         raise AnalysisError('C12.R3 examined only %d data-keyed lookups' % n3)
 
     n4 = 0
